@@ -12,10 +12,10 @@ CONSTANTS
   Passwords = {pw1, pw2}
   MCPurposes = {"local", "public", "local+c"}
   Vers = {2, 4}
-  MaxTokens = 1
-  MaxBlobs = 1
-  MaxDraws = 2
-  MaxGen = 1
+  MaxTokens = 2
+  MaxBlobs = 0
+  MaxDraws = 1
+  MaxGen = 0
 INIT MCInit
 NEXT MCNext
 VIEW MCView
